@@ -7,7 +7,7 @@ from ..storecheck import HistGen, Runner, strip_now
 from ..absstore import Abs
 from ..gen import ID, ev_tok, AUTHORS
 
-THEOREMS = ['store_crash_consistent', 'remove_crash_consistent', 'vanish_crash_subset', 'creation_crash_consistent', 'reopen_end', 'store_kill_map_states', 'creation_map_states', 'map_chunks_from_source']
+THEOREMS = ['event_map_from_source', 'store_crash_consistent', 'remove_crash_consistent', 'vanish_crash_subset', 'creation_crash_consistent', 'reopen_end', 'store_kill_map_states', 'creation_map_states', 'map_chunks_from_source']
 
 GROW = ('es_store:grow', 'es_store:grow_setlen', 'es_store:grow_resized')
 
